@@ -1,3 +1,5 @@
 pub mod config;
 pub mod feig;
 pub mod stream;
+#[cfg(feature = "zvt_verif")]
+pub mod verif_hook;
